@@ -103,6 +103,7 @@ Qed.
 Theorem C19_codec_inverse : forall (enc : bytes -> bytes) (dec : bytes -> bytes + bytes),
   (forall b, dec (enc b) = inl b) ->
   forall cs v g, bytes_shape cs -> convert (cs_in cs) v = Ok g ->
+  (forall f, cs_len cs = Some f -> forall b, f (List.length b) = List.length (strip_nl (enc b))) ->
   codec_decode dec cs (codec_encode enc cs v) = mk_content (cs_out cs) (content_of g) /\
   veq (mk_content (cs_out cs) (content_of g)) v = true.
 Proof. exact codec_inverse. Qed.
@@ -111,6 +112,14 @@ Theorem C19_codec_rejects : forall (dec : bytes -> bytes + bytes) cs v g t,
   convert (cs_in cs) v = Ok g -> dec (content_of g) = inr t ->
   codec_decode dec cs v = OErr (EGo t).
 Proof. exact codec_rejects. Qed.
+
+(* base32 (risor 53b0cbd): input the Go decoder accepts although it is longer than the encoding of
+   what it decoded (data after the final padding) is rejected by decode's own check *)
+Theorem C19_codec_rejects_noncanonical : forall (dec : bytes -> bytes + bytes) cs v g b f,
+  convert (cs_in cs) v = Ok g -> dec (content_of g) = inl b -> cs_len cs = Some f ->
+  f (List.length b) <> List.length (strip_nl (content_of g)) ->
+  codec_decode dec cs v = OErr EValue.
+Proof. exact codec_rejects_noncanonical. Qed.
 
 (* hex, implemented in the model: no hypothesis left *)
 Theorem C19_hex_inverse : forall b, bytes_ok b -> hex_decode (hex_encode b) = inl b.
@@ -136,34 +145,34 @@ Proof. exact hex_codec_rejects. Qed.
 (* the full statement "decode (encode v) equals v on the JSON domain" is FALSE of the code:
    integers above 2^53 come back as the nearest float64 ... *)
 Theorem C19_refuted_json_big_int : exists v v',
-  json_dom v = true /\ not_nil v = true /\ json_roundtrip v = Some v' /\ veq v' v = false.
+  json_dom v = true /\ json_roundtrip v = Some v' /\ veq v' v = false.
 Proof.
   exists (OInt 9007199254740993), (OFloat (FFin false 1 53)). vm_compute. repeat split; reflexivity.
 Qed.
 
 (* ... and strings that are not valid UTF-8 come back with U+FFFD in place of the bad bytes *)
 Theorem C19_refuted_json_invalid_utf8 : exists v v',
-  json_dom v = true /\ not_nil v = true /\ json_roundtrip v = Some v' /\ veq v' v = false.
+  json_dom v = true /\ json_roundtrip v = Some v' /\ veq v' v = false.
 Proof.
   exists (OString [255%N; 97%N]), (OString [239; 191; 189; 97]%N). vm_compute. repeat split; reflexivity.
 Qed.
 
-(* guarded: integers of magnitude <= 2^53, finite floats, valid UTF-8, any nesting *)
+(* guarded: integers of magnitude <= 2^53, finite floats, valid UTF-8, any nesting, nil included *)
 Theorem C19_json_roundtrip_guarded : forall v,
-  json_safe v = true -> not_nil v = true ->
+  json_safe v = true ->
   exists v', json_roundtrip v = Some v' /\ veq v' v = true.
 Proof. exact json_roundtrip_safe. Qed.
 
-(* json.marshal agrees with the json codec on the JSON domain (top-level nil excepted) ... *)
+(* json.marshal agrees with the json codec on the whole JSON domain (nil included since 151e447) ... *)
 Theorem C19_json_agree_guarded : forall v,
-  json_dom v = true -> not_nil v = true -> json_marshal v = json_encode v.
+  json_dom v = true -> json_marshal v = json_encode v.
 Proof. exact json_agree. Qed.
 
-(* ... but not on nil and not on byte slices (codec: base64 text, json.marshal: the bytes as text) *)
-Theorem C19_refuted_json_agree : 
-  json_marshal ONil <> json_encode ONil /\
+(* ... but not on byte slices, which lie outside it (codec: base64 text, json.marshal: the bytes as
+   text) *)
+Theorem C19_refuted_json_agree :
   json_marshal (OBytes [97; 98]%N) <> json_encode (OBytes [97; 98]%N).
-Proof. split; vm_compute; discriminate. Qed.
+Proof. vm_compute. discriminate. Qed.
 
 (* json.unmarshal and decode(_, "json") are the same function up to the text of the error *)
 Theorem C19_json_decoders_agree : forall (parse : bytes -> option jv) v,
@@ -196,6 +205,13 @@ Example C19_regular_records_exist :
 Proof. vm_compute. reflexivity. Qed.
 Example C19_hex_law_is_the_codec_law : forall b, bytes_ok b -> hex_dec (hex_encode b) = inl b.
 Proof. exact hex_dec_law. Qed.
+Example C19_json_nil_agrees : json_marshal ONil = json_encode ONil /\ json_roundtrip ONil = Some ONil.
+Proof. split; reflexivity. Qed.
+Example C19_base32_trailing_data_rejected :
+  (* "AA========" : the Go decoder stops after "AA======" and reports one byte *)
+  codec_decode (fun _ => inl [0%N]) cs_base32 (OString [65;65;61;61;61;61;61;61;61;61]%N) = OErr EValue /\
+  codec_decode (fun _ => inl [0%N]) cs_base32 (OString [65;65;61;61;61;61;61;61]%N) = OBytes [0%N].
+Proof. split; vm_compute; reflexivity. Qed.
 Example C19_json_safe_satisfiable :
   json_safe (OMap [([97]%N, OList [OInt 9007199254740992; OFloat (FFin true 3 (-1)); ONil; OString [195; 169]%N])]) = true.
 Proof. vm_compute. reflexivity. Qed.
